@@ -432,7 +432,10 @@ pub fn gen_circuit(r: &mut Prng) -> Circuit {
         // a column for a virtual signal (F22): 1 = declared by this test, in a source that parses: the column is fine;
         // 2 = not declared: the name matches no pin; 3 = declared, but the source does not parse: it declares nothing
         let virt_mode = if !hdr.is_empty() && r.chance(1, 5) { 1 + r.below(3) } else { 0 };
-        let virt_name = format!("VIRT{k}");
+        // two names only, so that different tests of one document use the same one: what one test declares excuses nothing
+        // in another test
+        let virt_name = format!("VIRT{}", r.below(2));
+        let _ = k;
         let mut declared = vec![];
         if virt_mode > 0 && !ins.contains(&virt_name) && !outs.contains(&virt_name) {
             let at = r.below(hdr.len() + 1);
